@@ -923,6 +923,10 @@ func FromV3SchemaRef(schema *openapi3.SchemaRef, components *openapi3.Components
 		AdditionalProperties: schema.Value.AdditionalProperties,
 	}
 
+	if d := schema.Value.Discriminator; d != nil {
+		v2Schema.Discriminator = d.PropertyName
+	}
+
 	if v := schema.Value.Items; v != nil {
 		v2Schema.Items, _ = FromV3SchemaRef(v, components)
 	}
